@@ -114,8 +114,26 @@ type stepper struct {
 }
 
 // step applies one event to world and model and returns what disagrees with the property.
-func (s *stepper) step(w *world, m *model, e event, count bool) (out []finding) {
+func (s *stepper) step(w *world, m *model, ep *event, count bool) (out []finding) {
 	add := func(k, f string, a ...any) { out = append(out, finding{k, fmt.Sprintf(f, a...)}) }
+	if ep.K == "lsub" {
+		// the service decides (local cap); the decision is recorded in the event and must be stable across replays
+		before := len(w.subs)
+		w.apply(*ep)
+		acc := len(w.subs) > before
+		if ep.Ok != nil && *ep.Ok != acc {
+			add("harness:lsub-not-reproducible", "%s was accepted=%v when first executed, now %v", *ep, *ep.Ok, acc)
+		}
+		if acc && !refValidPattern(expand(ep.L[0])) {
+			add("local-subscribe-accepts-invalid-pattern", "%s was accepted", *ep)
+		}
+		ep.Ok = &acc
+		m.apply(*ep)
+		w.observe()
+		s.c.Count("transitions", 1)
+		return append(out, compareState(w, m, w.dump())...)
+	}
+	e := *ep
 	var wouldMatch bool
 	if e.K == "pub" && s.role == "node" {
 		sp, tp, _, _, _ := frameOf(*e.P)
@@ -540,7 +558,7 @@ func (r *runner) exec(hist []event, countLast bool, then func(w *world, m *model
 				failedAt = i
 				return
 			}
-			fs := st.step(w, m, e, countLast && i == len(hist)-1)
+			fs := st.step(w, m, &hist[i], countLast && i == len(hist)-1)
 			if len(fs) > 0 {
 				out = append(out, fs...)
 				failedAt = i
@@ -663,7 +681,7 @@ func (r *runner) bfs(alphabet []event, probes []event, maxDepth int) (complete b
 	}
 
 	// judge a new state: the probe battery and every teardown order
-	judge := func(hist []event) {
+	judge := func(hist []event, lastLevel bool) {
 		var tds []teardown
 		var hadInterest bool
 		probeFailed := -1
@@ -681,7 +699,7 @@ func (r *runner) bfs(alphabet []event, probes []event, maxDepth int) (complete b
 				if !m.enabled(p) {
 					continue
 				}
-				if f := st.step(w, m, p, true); len(f) > 0 {
+				if f := st.step(w, m, &p, true); len(f) > 0 {
 					probeFailed, probeFindings = i, f
 					break
 				}
@@ -701,9 +719,12 @@ func (r *runner) bfs(alphabet []event, probes []event, maxDepth int) (complete b
 			}
 			violations++
 		}
-		for _, td := range tds {
+		for ti, td := range tds {
 			if r.c.TimeUp() {
 				break
+			}
+			if lastLevel && r.c.Quick() && ti >= 5 && td.Name != "local-unsubscribe" {
+				continue // quick tier: the mixed orders are run from every state but those of the deepest level
 			}
 			full := append(append([]event{}, hist...), td.Events...)
 			fs, failedAt := r.exec(full, false, func(w *world, m *model, st *stepper) []finding {
@@ -751,7 +772,7 @@ func (r *runner) bfs(alphabet []event, probes []event, maxDepth int) (complete b
 	}
 	visited[h0] = true
 	if r.gi == 0 {
-		judge(nil)
+		judge(nil, false)
 	}
 	frontier := []bnode{{H: h0}}
 	for depth := 1; depth <= maxDepth; depth++ {
@@ -824,7 +845,7 @@ func (r *runner) bfs(alphabet []event, probes []event, maxDepth int) (complete b
 			if r.c.TimeUp() || violations > 20 {
 				break
 			}
-			judge(cd.Hist)
+			judge(cd.Hist, depth == maxDepth)
 		}
 		mineJ.Stop = stopReason()
 		allJ, ok := r.exchange(fmt.Sprintf("j%d", depth), mineJ)
